@@ -1,0 +1,101 @@
+//go:build verif
+
+// Contracts for the watermill verification harness (/verif, tool "gowp"). Comment-only.
+
+package cqrs
+
+//@ func FullyQualifiedStructName
+//@   trusted
+//@   pure
+//@   nopanic
+//@   ensures result == fqname(v) [ASSUMED-a-pure-function-of-the-dynamic-type]
+
+// ---- marshalers (C15, C16) ----
+
+//@ spec gennameJ(m JSONMarshaler, v any) string
+//@ spec nameJ(m JSONMarshaler, v any) string := m.GenerateName != nil ? gennameJ(m, v) : fqname(v)
+
+//@ func (JSONMarshaler).Name
+//@   callee GN = m.GenerateName : function gennameJ0
+//@   nopanic
+//@   ensures m.GenerateName == nil ==> result == fqname(cmdOrEvent) [default-is-the-fully-qualified-type-name]
+//@   ensures m.GenerateName != nil ==> result == gennameJ0(m.GenerateName, cmdOrEvent) [custom-generator-used-when-configured]
+
+//@ spec gennameJ0(g any, v any) string
+
+//@ func (JSONMarshaler).NameFromMessage
+//@   requires msg != nil
+//@   nopanic
+//@   pure
+//@   ensures result == msg.Metadata["name"] [reads-the-name-key]
+
+//@ func (JSONMarshaler).Marshal
+//@   callee NU = m.NewUUID : total
+//@   callee GN = m.GenerateName : function gennameJ0
+//@   nopanic
+//@   ensures result1 != nil ==> result0 == nil
+//@   ensures result1 == nil ==> result0 != nil && fresh(result0) && bytes(result0.Payload) == jsonenc(v) [payload-is-exactly-the-encoding-of-the-value]
+//@   ensures result1 == nil ==> has(result0.Metadata, "name") && result0.Metadata["name"] == (m.GenerateName != nil ? gennameJ0(m.GenerateName, v) : fqname(v)) && (forall k string :: k != "name" ==> !has(result0.Metadata, k)) [carries-the-type-name-and-nothing-else]
+//@   ensures result1 == nil && m.NewUUID != nil ==> calls(NU) == old(calls(NU)) + 1 && result0.UUID == ret(NU, 0, old(calls(NU))) [configured-uuid-source-used]
+
+//@ func (JSONMarshaler).Unmarshal
+//@   requires msg != nil
+//@   nopanic
+//@   ensures err == nil ==> jsondecoded(v) == bytes(msg.Payload) [target-decoded-from-exactly-the-payload]
+//@   modifies ghost(jsondecoded)
+
+//@ func (ProtoMarshaler).Name
+//@   callee GN = m.GenerateName : function gennameJ0
+//@   nopanic
+//@   ensures m.GenerateName == nil ==> result == fqname(cmdOrEvent) [default-is-the-fully-qualified-type-name]
+//@   ensures m.GenerateName != nil ==> result == gennameJ0(m.GenerateName, cmdOrEvent) [custom-generator-used-when-configured]
+
+//@ func (ProtoMarshaler).NameFromMessage
+//@   requires msg != nil
+//@   nopanic
+//@   pure
+//@   ensures result == msg.Metadata["name"] [reads-the-name-key]
+
+//@ func (ProtoMarshaler).Marshal
+//@   callee NU = m.NewUUID : total
+//@   callee GN = m.GenerateName : function gennameJ0
+//@   nopanic
+//@   ensures result1 != nil ==> result0 == nil
+//@   ensures result1 == nil ==> result0 != nil && fresh(result0) && bytes(result0.Payload) == protoenc(v) [payload-is-exactly-the-encoding-of-the-value]
+//@   ensures result1 == nil ==> has(result0.Metadata, "name") && result0.Metadata["name"] == (m.GenerateName != nil ? gennameJ0(m.GenerateName, v) : fqname(v)) && (forall k string :: k != "name" ==> !has(result0.Metadata, k)) [carries-the-type-name-and-nothing-else]
+
+//@ func (ProtoMarshaler).Unmarshal
+//@   requires msg != nil
+//@   nopanic
+//@   ensures err == nil ==> protodecoded(v) == bytes(msg.Payload) [target-decoded-from-exactly-the-payload]
+//@   modifies ghost(protodecoded)
+
+//@ func (ProtobufMarshaler).ToProtoMarshaler
+//@   nopanic
+//@   pure
+//@   ensures result.NewUUID == m.NewUUID && result.GenerateName == m.GenerateName [same-configuration]
+
+//@ func (ProtobufMarshaler).Name
+//@   callee GN = m.GenerateName : function gennameJ0
+//@   nopanic
+//@   ensures m.GenerateName == nil ==> result == fqname(cmdOrEvent)
+//@   ensures m.GenerateName != nil ==> result == gennameJ0(m.GenerateName, cmdOrEvent)
+
+//@ func (ProtobufMarshaler).NameFromMessage
+//@   requires msg != nil
+//@   nopanic
+//@   pure
+//@   ensures result == msg.Metadata["name"] [reads-the-name-key]
+
+//@ func (ProtobufMarshaler).Marshal
+//@   callee NU = m.NewUUID : total
+//@   callee GN = m.GenerateName : function gennameJ0
+//@   nopanic
+//@   ensures err == nil ==> msg != nil && (bytes(msg.Payload) == gogoenc(v) || bytes(msg.Payload) == protoenc(v)) [payload-is-the-gogo-or-the-fallback-encoding-of-the-value]
+//@   ensures err == nil ==> has(msg.Metadata, "name") && msg.Metadata["name"] == (m.GenerateName != nil ? gennameJ0(m.GenerateName, v) : fqname(v)) && (forall k string :: k != "name" ==> !has(msg.Metadata, k)) [carries-the-type-name-and-nothing-else]
+
+//@ func (ProtobufMarshaler).Unmarshal
+//@   requires msg != nil
+//@   nopanic
+//@   ensures err == nil ==> protodecoded(v) == bytes(msg.Payload) [target-decoded-from-exactly-the-payload]
+//@   modifies ghost(protodecoded)
